@@ -110,6 +110,12 @@ def auto_triage(s):
     old = s['old'][0]
     if s['kind'] == 'delete-effect' and 'extend_' in old and 'ttl' in old:
         return 'outside: only a storage-lifetime extension is dropped (lifetimes beyond the modelled horizon of 4096 ledgers are in no property)'
+    if s['file'].endswith('axelar-soroban-std/src/ttl.rs'):
+        return 'outside: storage-lifetime constants (lifetimes beyond the modelled horizon of 4096 ledgers are in no property)'
+    if s['kind'] == 'int-literal' and ('BytesN<' in old or 'Symbol,' in old):
+        return 'outside: type parameter inside a cfg(test / testutils) event helper'
+    if s['kind'] == 'int-literal' and re.search(r'^\s*\w+ = \d+,\s*(//.*)?$', old):
+        return 'tolerated by design: an error / enum discriminant is renumbered (errors are compared by class, §10; the `MessageType` contracttype enum of types.rs is not used by the codec, which has its own)'
     if s['file'].endswith('axelar-soroban-std/src/events.rs'):
         return 'outside: test-utility code (cfg(test / testutils)), not contract behaviour'
     return None
